@@ -91,4 +91,9 @@ def cells(tier):
     from .p_c04 import mcell as _mcell
     for carry in ([], ['fresh'], ['metaX'], ['roEdStart', 'metaA']):
         out.append(_mcell(PID, 'frame', carry, N=0, T=60 if tier == 'quick' else 600, gap=None))
+    if tier == 'thorough':
+        # one more size: five (and six) stories / items for the resolvable and k-th-unresolvable shapes
+        out += make_cells(PID, 'frame', tier, N=5, thin=plain, suffix='N5')
+        out += make_cells(PID, 'frame', tier, N=6, thin=lambda op, story_k, tk, sk, nk: plain(op, story_k, tk, sk, nk) and tk in (None, 'existing') and
+                          (sk is None or sk == ['existing', 'existing']), suffix='N6')
     return out
